@@ -894,8 +894,26 @@ fn c11(cx: &mut Ctx) {
         let lose = if has_rights && cx.rng.chance(1, 2) { Some(cx.rng.below(target.max(2) - 1)) } else { None };
         let irr = if cx.rng.chance(1, 5) { Some(cx.rng.below(target.max(2) - 1)) } else { None };
         let undo = match cx.rng.below(4) { 0 => 0, 1 => 30, 2 => 60, _ => 90 };
-        let plan = DrawPlan { target, lose_rights_at: lose, irreversible_at: irr, undo_pct: undo };
+        // every seventh program: a small mating net, shuffled up to the fifty-move boundary and then
+        // finished by mate or stalemate on half-move 97..103 (a result and a full counter together)
+        let terminal = i % 7 == 6;
+        let (start, target, lose, irr, undo, fin) = if terminal {
+            let nets = [
+                "7k/8/6K1/8/8/8/8/R7 w - - 0 1", "7k/8/6K1/8/8/8/8/R7 b - - 0 1",
+                "k7/8/1K6/8/8/8/8/7R b - - 0 1", "8/8/8/8/8/1k6/8/K6r w - - 0 1",
+                "8/8/8/8/8/6k1/8/r6K b - - 0 1", "7k/5K2/2Q5/8/8/8/8/8 b - - 0 1",
+                "k7/2K5/5Q2/8/8/8/8/8 b - - 0 1", "8/8/8/8/8/5q2/2k5/K7 w - - 0 1",
+                "6k1/8/5K2/8/8/8/8/1Q6 w - - 0 1", "5k2/8/5K2/8/8/8/8/4R3 w - - 0 1",
+            ];
+            let st = Board::from_str(nets[cx.rng.below(nets.len())]).unwrap_or(start);
+            let fin_from = 95 + cx.rng.below(8);
+            (st, fin_from + 12, None, None, 90, Some(fin_from))
+        } else {
+            (start, target, lose, irr, undo, None)
+        };
+        let plan = DrawPlan { target, lose_rights_at: lose, irreversible_at: irr, undo_pct: undo, finish_terminal_from: fin };
         let acts = draw_program(&mut cx.rng, &start, &plan);
+        if terminal { cx.sink.count("plans_finishing_by_mate_or_stalemate_at_boundary"); }
         let moves = acts.iter().filter(|a| matches!(a, ops::Act::M(_))).count();
         cx.sink.hist("history_halfmoves", format!("{:03}", if (96..=104).contains(&moves) { moves } else { (moves / 10) * 10 }));
         if lose.is_some() { cx.sink.count("plans_with_rights_loss"); }
